@@ -186,6 +186,8 @@ async def run_scenario(mods, sc, id_step=1):
 
     seen_log = 0
     seen_out = [None] * ncalls
+    created_by = {}        # index in `created` -> call index
+    parked = []            # indices in `created` of the callers parked in transport.write
     fcancelled = set()
     on_wire = {}           # call index -> its message as the peer saw it
     answers = {}           # call index -> the answer the peer sent (for 'dup')
@@ -221,6 +223,10 @@ async def run_scenario(mods, sc, id_step=1):
         for i in range(ncalls):
             if outcomes[i] is not None and seen_out[i] is None:
                 seen_out[i] = outcomes[i]
+                for k in [k for k in parked if created_by.get(k) == i]:
+                    # it gave up while parked: its message will never be written
+                    events.append(('drop', parked.index(k)))
+                    parked.remove(k)
                 events.append(('o', i, outcomes[i]))
 
     pending_meta = []      # meta of the chunks fed but not yet delivered (reading paused)
@@ -251,13 +257,19 @@ async def run_scenario(mods, sc, id_step=1):
     script = sc.get('script') or default_script(sc)
     for step in script:
         k = step[0]
+        ncreated = len(created)
         if k == 'call':
             i = step[1]
             if tasks[i] is None:
                 tasks[i] = asyncio.ensure_future(do_call(i, sc['calls'][i]))
         elif k == 'pause':
+            if not transport.paused_writing and not transport.closing:
+                events.append(('pause',))
             transport.env_pause()
         elif k == 'resume':
+            if transport.paused_writing:
+                events.append(('resume',))
+                parked.clear()
             transport.env_resume()
         elif k == 'cancel':
             if tasks[step[1]] is not None and not tasks[step[1]].done():
@@ -282,6 +294,14 @@ async def run_scenario(mods, sc, id_step=1):
         else:
             raise ValueError(step)
         await settle(12)
+        if k == 'call':
+            for kk in range(ncreated, len(created)):
+                created_by[kk] = step[1]
+                if created[kk]['ids'] is not None and transport.paused_writing \
+                        and not transport.closing:
+                    parked.append(kk)
+        if transport.lost:
+            parked.clear()
         collect()
     await settle(12)
     collect()
@@ -331,8 +351,33 @@ async def run_scenario(mods, sc, id_step=1):
         start = rs.start()
     except OutsideModel as e:
         start = str(e)
-    return {'outcomes': outcomes, 'events': [list(e) for e in history if e[0] != 'create'],
-            'conn_ops': conn_ops, 'start': start, 'futs': futs, 'pending': pending,
+    # the same history at session level (Sess.lean): who parked, who gave up where
+    sess_ops = []
+    for e in history:
+        if e[0] == 'create':
+            sess_ops.append(created[e[1]]['op'])
+        elif e[0] == 'r':
+            sess_ops.append(['L' if isinstance(e[1], list) else 'R', e[1]])
+        elif e[0] == 'fcancel':
+            sess_ops.append(['X', ticket_of[e[1]]])
+        elif e[0] == 'lost':
+            sess_ops.append(['C'])
+        elif e[0] == 'pause':
+            sess_ops.append(['P'])
+        elif e[0] == 'resume':
+            sess_ops.append(['U'])
+        elif e[0] == 'drop':
+            sess_ops.append(['D', e[1]])
+    wire = []
+    for e in history:
+        if e[0] == 'w':
+            members = e[1] if isinstance(e[1], list) else [e[1]]
+            wire.append(','.join(str(m['id']) for m in members
+                                 if isinstance(m, dict) and m.get('id') is not None))
+    return {'outcomes': outcomes,
+            'events': [list(e) for e in history if e[0] in ('w', 'r', 'lost', 'o', 'fcancel')],
+            'conn_ops': conn_ops, 'sess_ops': sess_ops, 'wire': 'w' + ';'.join(wire),
+            'start': start, 'futs': futs, 'pending': pending,
             'stuck': stuck, 'errors': errors, 'alive': alive}
 
 
@@ -554,8 +599,10 @@ def _evaluate(ctx, scs, res):
         try:
             if isinstance(obs['start'], str):
                 raise OutsideModel(obs['start'])
-            lines.append(abstract({'proto': sc['proto'], 'ops': obs['conn_ops']},
-                                  start=obs['start']))
+            a = abstract({'proto': sc['proto'], 'ops': obs['conn_ops']}, start=obs['start'])
+            b = abstract({'proto': sc['proto'], 'ops': obs['sess_ops']}, variant='W',
+                         start=obs['start'] or 0)
+            lines += [a, b]
             idx.append(k)
         except OutsideModel as e:
             res.disagreement(sc, obs['futs'], f'ids outside the model: {e}')
@@ -570,8 +617,14 @@ def _evaluate(ctx, scs, res):
                                                     sc['seed']]))
     model = ctx.model(lines)
     if model is not None:
-        for line, out, k in zip(lines, model, idx):
+        for n, k in enumerate(idx):
             sc, obs = scs[k], obs_list[k]
+            line, out = lines[2 * n], model[2 * n]
+            # session level: table, futures and the ids on the wire in wire order
+            have_w = f'#{obs["pending"]} ' + (','.join(obs['futs']) if obs['futs'] else '.') \
+                + ' ' + obs['wire']
+            if model[2 * n + 1] != have_w and not res.n_violations:
+                res.disagreement(sc, have_w, model[2 * n + 1], model_line=lines[2 * n + 1])
             toks = out.split(' ')
             futs = [] if toks[-1] == '.' else toks[-1].split(',')
             pending = toks[-2]
